@@ -63,7 +63,7 @@ CHECKS = {
             "DESIGN.md section 2 C07"),
     "C08": ("exploration",
             "set-algebra oracle over an exhaustive small-universe enumeration + in-situ kernel-call monitor",
-            "All ordered pairs of subsets of a 7- (quick) / 9-element (thorough) universe under four order-preserving "
+            "All ordered pairs of subsets of a 7- (quick) / 10-element (thorough) universe under four order-preserving "
             "embeddings into uint32 (incl. 0 and 2^32-1) through the three kernels and three wrappers, structured random "
             "arrays up to 10^5 elements, the None/copy conventions, multi-way unions, and every kernel call made by real "
             "cube walks and set updates (wrappers installed at every binding site) are judged against Python set arithmetic.",
@@ -98,7 +98,7 @@ CHECKS = {
     "C12": ("fault_enumeration",
             "crash-point enumeration: every byte prefix of every generated file is loaded; strace write-trace monitor; SIGKILL experiment",
             "For each generated file (<= ~6 KB) every cut point 0 <= k < len is loaded from a really truncated file and "
-            "must raise (1.2*10^5 cut points quick, ~4*10^6 thorough); a strace monitor confirms the writer only appends "
+            "must raise (3.7*10^5 cut points quick, ~10^7 thorough); a strace monitor confirms the writer only appends "
             "(which makes byte prefixes the complete set of torn states); thorough SIGKILLs a saving subprocess at seeded "
             "file sizes and loads what is on disk.",
             "Crash model = byte prefix (checked by the write trace); files are small so that all cut points can be enumerated.",
